@@ -121,7 +121,16 @@ int refill_capacity();
 
 bytes hmac_get(int hmode, const bytes &key, const bytes &file, size_t pos, int refill_units);
 bool hmac_cmp(int hmode, const bytes &key, const bytes &file, size_t pos, const bytes &tag64, int refill_units);
-bytes hmac_write(int hmode, const bytes &key, const bytes &file, size_t hash_mark, size_t write_mark, int refill_units); // returns file after writeFileHmac
+bytes hmac_write(int hmode, const bytes &key, const bytes &file, size_t hash_mark, size_t write_mark, int refill_units);
+// ONE hmac object used for several consecutive calls (hmode, key, file, pos per call); for kind 0 the tag is
+// returned, for kind 1 the result of cmphmac against `tag64` (1 byte: 0/1)
+struct HmacCall
+{
+  int kind, hmode;
+  bytes key, file, tag64;
+  size_t pos;
+};
+std::vector<bytes> hmac_seq(const std::vector<HmacCall> &calls, int refill_units); // returns file after writeFileHmac
 
 void aes_encrypt_block(const uint8_t key[16], uint8_t block[16]);
 void aes_decrypt_block(const uint8_t key[16], uint8_t block[16]);
